@@ -124,6 +124,8 @@ func runOne(sc *Scenario, prefix []int, trace bool) *ExecReport {
 	}
 	if res.Err != "" {
 		rep.EngineEr = res.Err
+	} else if len(res.Points) < len(prefix) {
+		rep.EngineEr = fmt.Sprintf("replay divergence: the execution ended after %d choice points, the prefix has %d", len(res.Points), len(prefix))
 	}
 	for _, p := range res.Panics {
 		x.Fail("panic/"+shortFunc(p.Func)+"/"+panicClass(p.Value), "panic in thread %d (%s): %s\n%s", p.Thread, p.Name, p.Value, trimStack(p.Stack))
